@@ -19,6 +19,7 @@ import time
 
 HERE = os.path.dirname(os.path.abspath(__file__))
 sys.path.insert(0, HERE)
+sys.dont_write_bytecode = True
 import gen  # noqa: E402
 
 TIERS = {'quick': dict(tus=64, funcs=150, K=100), 'thorough': dict(tus=320, funcs=150, K=400)}
